@@ -74,6 +74,11 @@ MAP = {
     "str_": [(I, r"Input<'src> for &'src str"), (I, r"SliceInput<'src> for &'src str")],
     "mapped_input": [(I, r"Input<'src> for MappedInput<T, S, I, F>")], "iter_input": [("src/stream.rs", r"for IterInput<I, S>")],
     "stream_input": [("src/stream.rs", r"ValueInput<'a> for Stream<I>")], "span_wrappers": [(I, r"for MappedSpan<S, I, F>"), (I, r"Input<'src> for WithContext<S, I>")],
+    "err_expected_found": [("src/error.rs", r"fn expected_found<E: IntoIterator<Item = L>>"), ("src/error.rs", r"LabelError<'a, I, L> for Rich<'a, I::Token, I::Span>"), ("src/error.rs", r"LabelError<'a, I, L> for Simple<'a, I::Token, I::Span>"), ("src/error.rs", r"LabelError<'a, I, L> for Cheap<I::Span>")],
+    "err_rich_merge_expected_found": [("src/error.rs", r"fn merge_expected_found<E: IntoIterator<Item = L>>")],
+    "err_rich_replace": [("src/error.rs", r"fn replace_expected_found<E: IntoIterator<Item = L>>")],
+    "err_plain": [("src/error.rs", r"Error<'a, I> for Simple<'a, I::Token, I::Span>"), ("src/error.rs", r"Error<'a, I> for Cheap<I::Span>"), ("src/error.rs", r"LabelError<'a, I, L> for EmptyErr"), ("src/label.rs", r"fn merge_expected_found<E: IntoIterator<Item = L>>"), ("src/label.rs", r"fn replace_expected_found<E: IntoIterator<Item = L>>")],
+    "err_rich_label": [("src/error.rs", r"fn label_with\(&mut self, label: L\)")], "err_rich_context": [("src/error.rs", r"fn in_context\(&mut self, label: L, span: I::Span\)")],
     "char_classes": [("src/text.rs", r"impl Char for char"), ("src/text.rs", r"impl Char for u8")], "ident_classes": [("src/text.rs", r"fn is_ident_start")],
     "newline_": [("src/text.rs", r"pub fn newline<")], "int_": [("src/text.rs", r"pub fn int<")], "digits_": [("src/text.rs", r"pub fn digits<")],
     "whitespace_": [("src/text.rs", r"pub fn whitespace<")], "inline_whitespace": [("src/text.rs", r"pub fn inline_whitespace<")],
